@@ -403,6 +403,12 @@ func (vc *VC) modTargetKeys(fc *FuncContract, m string) []string {
 		case "closed":
 			vc.heapKeySort("#closed", types.Typ[types.Bool])
 			return []string{"#closed"}
+		case "sent":
+			vc.fifoFn()
+			return []string{"#fifo.sendn"}
+		case "received":
+			vc.fifoFn()
+			return []string{"#fifo.recvn"}
 		case "heap":
 			return []string{vc.resolveHeapKey(x.Args[0])}
 		}
@@ -514,6 +520,16 @@ func (vc *VC) modRegions(fc *FuncContract, env *Env) (regions []modRegion, all b
 				a := vc.tr(x.Args[0], env)
 				vc.heapKeySort("#closed", types.Typ[types.Bool])
 				regions = append(regions, modRegion{"#closed", func(l string) string { return eq(l, a.S) }})
+				continue
+			case "sent", "received":
+				// sent(ch) / received(ch): the send / receive counter of a tracked channel
+				a := vc.tr(x.Args[0], env)
+				vc.fifoFn()
+				k := "#fifo.sendn"
+				if x.Fn == "received" {
+					k = "#fifo.recvn"
+				}
+				regions = append(regions, modRegion{k, func(l string) string { return eq(l, a.S) }})
 				continue
 			case "heap":
 				regions = append(regions, modRegion{vc.resolveHeapKey(x.Args[0]), func(l string) string { return "true" }})
@@ -721,7 +737,7 @@ func (vc *VC) loopFrame(li *loopInfo) (keys []string, byKey map[string][]modRegi
 			}
 			continue
 		}
-		if (strings.HasPrefix(k, "#") && !strings.HasPrefix(k, "#ghost.")) || vc.heapElem[k] == nil {
+		if (strings.HasPrefix(k, "#") && !strings.HasPrefix(k, "#ghost.") && !strings.HasPrefix(k, "#fifo.")) || vc.heapElem[k] == nil {
 			continue
 		}
 		keys = append(keys, k)
